@@ -41,9 +41,10 @@ structure UI where
   quit : Bool := false
   selected : Option Nat := none     -- `TableState::selected`
   zoom : Int := 0                    -- net zoom steps (scale /= 1.1 per step)
-  panLat : Int := 0                  -- net vertical pan steps
-  panLon : Int := 0
-  custom : Bool := false             -- custom_lat / custom_long set
+  panLat : Int := 0                  -- custom_lat - base latitude, in units of 0.005 degrees
+  panLon : Int := 0                  -- custom_long - base longitude, in units of 0.01 degrees
+  custom : Bool := false             -- custom_lat or custom_long set
+  base : Option Nat := none          -- the view was centred on the aircraft in this row (none: on the receiver)
   lastDrag : Option (Nat × Nat) := none
   flags : Nat := 0                   -- toggles l i h t n (bit set)
   deriving Repr
@@ -90,15 +91,15 @@ def handleKey (ui : UI) (k : Key) (rows : Nat) (hasDetails : Nat → Bool) : Res
       | some s => if s = usizeMax then .panic "radar.rs handle_keyevent: selected + 1" else .ok { ui with selected := some (s + 1) }
       | none => .ok { ui with selected := some 0 }
     else .ok ui
-  | .left => .ok (if mapLike then { ui with panLon := ui.panLon - 1, custom := true } else ui)
-  | .right => .ok (if mapLike then { ui with panLon := ui.panLon + 1, custom := true } else ui)
+  | .left => .ok (if mapLike then { ui with panLon := ui.panLon - 3, custom := true } else ui)
+  | .right => .ok (if mapLike then { ui with panLon := ui.panLon + 3, custom := true } else ui)
   | .enter =>
-    if mapLike then .ok { ui with zoom := 0, panLat := 0, panLon := 0, custom := false }
+    if mapLike then .ok { ui with zoom := 0, panLat := 0, panLon := 0, custom := false, base := none }
     else if ui.tab = .airplanes then
       match ui.selected with
       | some s =>
         -- keys().nth(selected) is `None` past the end (after the repair: no unwrap)
-        if s < rows ∧ hasDetails s then .ok { ui with custom := true, tab := .map } else .ok ui
+        if s < rows ∧ hasDetails s then .ok { ui with custom := true, tab := .map, panLat := 0, panLon := 0, base := some s } else .ok ui
       | none => .ok ui
     else .ok ui
   | _ => .ok ui
@@ -122,7 +123,7 @@ def handleMouse (ui : UI) (m : Mouse) (buttons : Option (Rect × Rect × Rect)) 
       if b0.y + b0.h > u16Max ∨ b1.y + b0.h > u16Max ∨ b2.y + b0.h > u16Max then .panic "radar.rs handle_mouseevent: y + height"
       else if 1 ≤ col ∧ col ≤ 10 ∧ b0.y ≤ row ∧ row ≤ b0.y + b0.h then .ok { ui with zoom := ui.zoom + 1 }
       else if 1 ≤ col ∧ col ≤ 10 ∧ b1.y ≤ row ∧ row ≤ b1.y + b0.h then .ok { ui with zoom := ui.zoom - 1 }
-      else if 1 ≤ col ∧ col ≤ 10 ∧ b2.y ≤ row ∧ row ≤ b2.y + b0.h then .ok { ui with zoom := 0, panLat := 0, panLon := 0, custom := false }
+      else if 1 ≤ col ∧ col ≤ 10 ∧ b2.y ≤ row ∧ row ≤ b2.y + b0.h then .ok { ui with zoom := 0, panLat := 0, panLon := 0, custom := false, base := none }
       else .ok ui
   | .drag col row =>
     if ¬ (ui.tab = .map ∨ ui.tab = .coverage) then .ok ui
@@ -130,7 +131,7 @@ def handleMouse (ui : UI) (m : Mouse) (buttons : Option (Rect × Rect × Rect)) 
     else if col < leftBound then .ok ui
     else
       let ui := match ui.lastDrag with
-        | some (c0, r0) => { ui with panLat := ui.panLat + ((row : Int) - r0), panLon := ui.panLon - ((col : Int) - c0), custom := true }
+        | some (c0, r0) => { ui with panLat := ui.panLat + 4 * ((row : Int) - r0), panLon := ui.panLon - 2 * ((col : Int) - c0), custom := true }
         | none => ui
       .ok { ui with lastDrag := some (col, row) }
   | .up => .ok { ui with lastDrag := none }
@@ -167,6 +168,50 @@ def handleBatch (ui : UI) (es : List Event) (rows : Nat) (hasDetails : Nat → B
   | e :: rest =>
     match handleEvent ui e rows hasDetails buttons leftBound with
     | .ok ui' => handleBatch ui' rest rows hasDetails buttons leftBound
+    | .err x => .err x
+    | .panic p => .panic p
+
+/-- one iteration of the main loop as the handlers see it: the table has `rows` rows when it is drawn, then the pending events are handled -/
+structure Iter where
+  rows : Nat
+  hd : Nat → Bool
+  buttons : Option (Rect × Rect × Rect)
+  lb : Nat
+  events : List Event
+
+/-- the loop: draw (clamp), handle the batch, stop at the first iteration that requested quit -/
+def runIters (ui : UI) : List Iter → Res UI
+  | [] => .ok ui
+  | it :: rest =>
+    match handleBatch (drawClamp ui it.rows) it.events it.rows it.hd it.buttons it.lb with
+    | .ok ui' => if ui'.quit then .ok ui' else runIters ui' rest
+    | .err x => .err x
+    | .panic p => .panic p
+
+/-- what `main` changes on the terminal -/
+structure Term where
+  raw : Bool := false
+  mouse : Bool := false
+  cursorHidden : Bool := false
+  deriving Repr, DecidableEq
+
+def Term.setup (_ : Term) : Term := { raw := true, mouse := true, cursorHidden := true }
+/-- `cleanup`: DisableMouseCapture, disable_raw_mode, show_cursor -/
+def Term.cleanup (_ : Term) : Term := { raw := false, mouse := false, cursorHidden := false }
+
+/-- keys on the "waiting for connection" screen: only `q` / Ctrl-C matter -/
+def waitQuit : Key → Bool
+  | .char c ctrl => c = 'q' || (c = 'c' && ctrl)
+  | _ => false
+
+/-- `main` from terminal setup to exit: the keys typed before the feed connects (`none`: it never connects), then the loop.
+Returns the terminal as it is left, or the panic. A run that neither quits nor loses its connection has not exited: `none`. -/
+def mainRun (t : Term) (waitKeys : List Key) (connects : Bool) (its : List Iter) (disconnect : Bool) : Res (Option Term) :=
+  let t := t.setup
+  if waitKeys.any waitQuit then .ok (some t.cleanup)           -- quit while waiting (after the repair: through `cleanup`)
+  else if ¬ connects then .ok none
+  else match runIters {} its with
+    | .ok ui => if ui.quit ∨ disconnect then .ok (some t.cleanup) else .ok none
     | .err x => .err x
     | .panic p => .panic p
 
